@@ -187,4 +187,19 @@ def sampleB (cfg : SamplerCfg) (mol : Mol) : Py Mol := do
   let (mol, _) := sortNodes mol
   pure (if cfg.allAtom then setNamesByFragid mol else mol)
 
+/-- nodes reached from `seen` in at most `fuel` rounds of adding all neighbours -/
+def reachSet (m : Mol) : Nat → List Key → List Key
+  | 0, seen => seen
+  | fuel + 1, seen => reachSet m fuel (seen ++ seen.flatMap m.neighbors)
+
+/-- executable connectedness: every node is found from the first one within `n` rounds -/
+def Mol.connb (m : Mol) : Bool :=
+  match m.keys with
+  | [] => true
+  | k :: _ => m.keys.all fun x => (reachSet m m.atoms.length [k]).contains x
+
+/-- executable form of the hypothesis the C16 run theorem makes about the fragment library -/
+def cfgWFb (cfg : SamplerCfg) : Bool :=
+  fragsWFb cfg.frags && decide (cfg.frags.map (·.1)).Nodup && cfg.frags.all fun p => p.2.connb
+
 end CGV
